@@ -375,8 +375,11 @@ def exotic_modes_oracle(rep, r, tier, types):
     for t in types:
         if "TUser" in repr(t):
             continue
+        in_union = "TUnion" in repr(t)
         for sc in (True, False):
             for name, make in exo:
+                if in_union and name in lg.ONE_SHOT:
+                    continue        # a union case that fails has already consumed (part of) a one-shot iterable: not a value
                 outs = [lg.run_exotic(rts[(sc, m)], t, make) for m in MODES]
                 n += 3
                 kinds = [o[0] for o in outs]
